@@ -884,7 +884,7 @@ Proof.
     destruct mb as [x|]; [|reflexivity]. sf. destruct (is_done (s_jobs s) x); [reflexivity|].
     destruct (pushjob_jobs x (set_waiters (remove_waiter c (s_waiters s)) s)) as [H _]. rewrite H. reflexivity.
   - destruct (release ser (s_jobs s) (s_conns s)). destruct (getjob (s_jobs s) ser) as [j|]; [|reflexivity].
-    destruct (j_drop j && has_waiter ser (s_conns s)); reflexivity.
+    destruct (j_drop j && has_waiter ser (s_conns s) && id_is (s_ids s) (j_id j) ser); reflexivity.
 Qed.
 
 Lemma run_events_jobs : forall es s, s_jobs (fst (run_events es s)) = s_jobs s.
@@ -894,17 +894,61 @@ Proof.
   specialize (IH s1). destruct (run_events r s1) as [s2 o2]. cbn [fst] in *. congruence.
 Qed.
 
-(* side invariant on the job table: nobody called dropjobs (Drop is outside the properties' alphabets,
-   see Model.v), and only finished jobs carry a dropdead deadline *)
+(* side invariant on the job table: only finished jobs carry a dropdead deadline (so the watchdog only
+   forgets finished jobs) *)
 Definition Aux (s : state) : Prop :=
-  forall x j, getjob (s_jobs s) x = Some j -> j_drop j = false /\ (j_done j = false -> j_dl j = None).
+  forall x j, getjob (s_jobs s) x = Some j -> j_done j = false -> j_dl j = None.
+
+(* the jobs whose finish notification is queued in the hub are finished (finish_event.set() is called by
+   _mark_finished only, after job.done = True) *)
+Definition really_done (js : list job) (ser : N) : Prop := exists j, getjob js ser = Some j /\ j_done j = true.
+Definition hub_ok (js : list job) (es : list event) : Prop := forall ser, In (EvDone ser) es -> really_done js ser.
+Definition HubOK (s : state) : Prop := hub_ok (s_jobs s) (s_hub s).
+
+Lemma really_done_is_done : forall js ser, really_done js ser -> is_done js ser = true.
+Proof. intros js ser (j&E&D). unfold is_done. rewrite E. exact D. Qed.
+
+Lemma tab_le_really_done : forall js js' x, tab_le js js' -> really_done js x -> really_done js' x.
+Proof.
+  intros js js' x T (j&E&D). specialize (T x). rewrite E in T. destruct (getjob js' x) as [j'|] eqn:E'; [|contradiction].
+  exists j'. split; [exact E'|]. destruct T as (_&_&_&T). destruct (j_done j') eqn:D'; [reflexivity|].
+  destruct (T eq_refl) as [T0 _]. congruence.
+Qed.
+
+Lemma id_is_spec : forall ids i ser, id_is ids i ser = true -> id_lookup ids i = Some ser.
+Proof.
+  intros ids i ser. unfold id_is. destruct (id_lookup ids i) as [w|]; [|discriminate].
+  intro H. apply N.eqb_eq in H. subst. reflexivity.
+Qed.
 
 Lemma aux_same : forall s s', s_jobs s' = s_jobs s -> Aux s -> Aux s'.
 Proof. intros s s' H A x j E. rewrite H in E. exact (A x j E). Qed.
 
-Lemma run_event_inv : forall e s, Aux s -> Inv s [] [] -> Inv (fst (run_event e s)) [] [].
+Lemma id_lookup_del_other : forall ids i k, jid_eqb i k = false -> id_lookup (id_del ids i) k = id_lookup ids k.
 Proof.
-  intros e s A I. destruct e as [c|c|ser]; cbn [run_event].
+  induction ids as [|[a w] r IH]; intros i k H; cbn [id_del id_lookup]; [reflexivity|].
+  destruct (jid_eqb a i) eqn:E1.
+  - apply jid_eqb_eq in E1. subst a. rewrite H. reflexivity.
+  - cbn [id_lookup]. destruct (jid_eqb a k); [reflexivity|apply IH; exact H].
+Qed.
+
+(* forgetting the id of a FINISHED job keeps the invariant *)
+Lemma inv_del_done : forall s L R i ser, Inv s L R ->
+  id_lookup (s_ids s) i = Some ser -> is_done (s_jobs s) ser = true ->
+  Inv (set_ids (id_del (s_ids s) i) s) L R.
+Proof.
+  intros s L R i ser I El D. constructor; unfold locs; sf; try (destruct I; assumption).
+  intros x j E Dj O. pose proof (inv_addr _ _ _ I x j E Dj O) as H.
+  destruct (jid_eqb i (j_id j)) eqn:Ei.
+  - apply jid_eqb_eq in Ei. subst i. rewrite El in H. inversion H; subst ser.
+    unfold is_done in D. rewrite E in D. congruence.
+  - rewrite id_lookup_del_other by exact Ei. exact H.
+Qed.
+
+Lemma run_event_inv : forall e s, Inv s [] [] -> (forall ser, e = EvDone ser -> really_done (s_jobs s) ser) ->
+  Inv (fst (run_event e s)) [] [].
+Proof.
+  intros e s I HD. destruct e as [c|c|ser]; cbn [run_event].
   - destruct (c_st (get_conn (s_conns s) c)) as [|chs [ser|]|w|] eqn:ES; try exact I.
     destruct (is_done (s_jobs s) ser) eqn:D.
     + apply pop_or_block_inv; auto.
@@ -947,28 +991,30 @@ Proof.
       * intros y n W. rewrite ES. reflexivity.
       * eapply not_waiter; eauto. intros chs' H. rewrite ES in H. discriminate.
   - destruct (release ser (s_jobs s) (s_conns s)) as [cs o] eqn:ER.
-    assert (EQ : fst (match getjob (s_jobs s) ser with
-                      | Some j => if j_drop j && has_waiter ser (s_conns s)
-                                  then (set_ids (id_del (s_ids s) (j_id j)) (set_conns cs s),
-                                        drop_outs (match id_lookup (s_ids s) (j_id j) with Some _ => true | None => false end) o)
-                                  else (set_conns cs s, o)
-                      | None => (set_conns cs s, o) end) = set_conns cs s).
-    { destruct (getjob (s_jobs s) ser) as [j|] eqn:Ej; [|reflexivity]. rewrite (proj1 (A _ _ Ej)). reflexivity. }
-    rewrite EQ. clear EQ.
     destruct (release_spec ser (s_jobs s) (s_conns s)) as (R1&R2&R3). rewrite ER in *. cbn [fst] in *.
-    constructor; unfold locs; sf; try (destruct I; assumption).
-    + intros y n W. rewrite R1. apply (inv_cons _ _ _ I); auto.
-    + intros c chs Hin. pose proof (inv_wait _ _ _ I _ _ Hin) as H. destruct (R2 c) as [_ [H2|[_ H2]]]; congruence.
-    + intros c' i w Hin Hr. destruct (R3 _ Hin) as (c0&H0&H1). rewrite H1 in Hr. eapply (inv_run _ _ _ I); eauto.
-    + intros c chs y Hs. destruct (R2 c) as [_ [H2|[H2 _]]]; [|congruence]. rewrite H2 in Hs. apply (inv_mb _ _ _ I) in Hs. exact Hs.
+    assert (I1 : Inv (set_conns cs s) [] []).
+    { constructor; unfold locs; sf; try (destruct I; assumption).
+      + intros y n W. rewrite R1. apply (inv_cons _ _ _ I); auto.
+      + intros c chs Hin. pose proof (inv_wait _ _ _ I _ _ Hin) as H. destruct (R2 c) as [_ [H2|[_ H2]]]; congruence.
+      + intros c' i w Hin Hr. destruct (R3 _ Hin) as (c0&H0&H1). rewrite H1 in Hr. eapply (inv_run _ _ _ I); eauto.
+      + intros c chs y Hs. destruct (R2 c) as [_ [H2|[H2 _]]]; [|congruence]. rewrite H2 in Hs. apply (inv_mb _ _ _ I) in Hs. exact Hs. }
+    destruct (getjob (s_jobs s) ser) as [j|] eqn:Ej; [|exact I1].
+    destruct (j_drop j && has_waiter ser (s_conns s) && id_is (s_ids s) (j_id j) ser) eqn:EC; [|exact I1].
+    apply andb_true_iff in EC. destruct EC as [_ EI]. apply id_is_spec in EI. cbn [fst].
+    (* the entry that is deleted refers to the finished job itself *)
+    apply (inv_del_done (set_conns cs s) [] [] (j_id j) ser I1); sf; [exact EI|].
+    apply really_done_is_done. apply HD. reflexivity.
 Qed.
 
-Lemma run_events_inv : forall es s, Aux s -> Inv s [] [] -> Inv (fst (run_events es s)) [] [].
+Lemma run_events_inv : forall es s, Inv s [] [] -> hub_ok (s_jobs s) es -> Inv (fst (run_events es s)) [] [].
 Proof.
-  induction es as [|e r IH]; intros s A I; cbn [run_events]; [exact I|].
-  pose proof (run_event_inv e s A I) as I1. pose proof (run_event_jobs e s) as J1.
+  induction es as [|e r IH]; intros s I HD; cbn [run_events]; [exact I|].
+  assert (I1 : Inv (fst (run_event e s)) [] []).
+  { apply run_event_inv; [exact I|]. intros ser E. apply HD. left. exact E. }
+  pose proof (run_event_jobs e s) as J1.
   destruct (run_event e s) as [s1 o1]. cbn [fst] in I1, J1.
-  specialize (IH s1 (aux_same _ _ J1 A) I1). destruct (run_events r s1) as [s2 o2]. exact IH.
+  assert (HD1 : hub_ok (s_jobs s1) r) by (rewrite J1; intros ser Hin; apply HD; right; exact Hin).
+  specialize (IH s1 I1 HD1). destruct (run_events r s1) as [s2 o2]. exact IH.
 Qed.
 
 (* ------------------------------------------------------------------ ops on an idle connection *)
@@ -1162,30 +1208,6 @@ Qed.
 
 (* ---- Drop / Watchdog / Advance *)
 
-Definition nodrop_op (o : op) : bool := match o with Drop _ => false | _ => true end.
-Definition nodrop (h : list op) : bool := forallb nodrop_op h.
-
-Lemma id_lookup_del_other : forall ids i k, jid_eqb i k = false -> id_lookup (id_del ids i) k = id_lookup ids k.
-Proof.
-  induction ids as [|[a w] r IH]; intros i k H; cbn [id_del id_lookup]; [reflexivity|].
-  destruct (jid_eqb a i) eqn:E1.
-  - apply jid_eqb_eq in E1. subst a. rewrite H. reflexivity.
-  - cbn [id_lookup]. destruct (jid_eqb a k); [reflexivity|apply IH; exact H].
-Qed.
-
-(* forgetting the id of a FINISHED job keeps the invariant *)
-Lemma inv_del_done : forall s L R i ser, Inv s L R ->
-  id_lookup (s_ids s) i = Some ser -> is_done (s_jobs s) ser = true ->
-  Inv (set_ids (id_del (s_ids s) i) s) L R.
-Proof.
-  intros s L R i ser I El D. constructor; unfold locs; sf; try (destruct I; assumption).
-  intros x j E Dj O. pose proof (inv_addr _ _ _ I x j E Dj O) as H.
-  destruct (jid_eqb i (j_id j)) eqn:Ei.
-  - apply jid_eqb_eq in Ei. subst i. rewrite El in H. inversion H; subst ser.
-    unfold is_done in D. rewrite E in D. congruence.
-  - rewrite id_lookup_del_other by exact Ei. exact H.
-Qed.
-
 Lemma set_dl_tab_le : forall js ser d, tab_le js (setjob ser (set_dl d) js).
 Proof.
   intros js ser d y. rewrite getjob_setjob by (intros; cbn; assumption).
@@ -1199,8 +1221,7 @@ Lemma aux_set_dl : forall s ser j d, Aux s -> getjob (s_jobs s) ser = Some j -> 
 Proof.
   intros s ser j d A Ej Dj x jx. sf. rewrite getjob_setjob by (intros; cbn; assumption).
   destruct (x =? ser) eqn:E.
-  - apply N.eqb_eq in E. subst x. rewrite Ej. cbn. intro H. inversion H; subst jx. cbn.
-    split; [exact (proj1 (A _ _ Ej))|]. intro D0. congruence.
+  - apply N.eqb_eq in E. subst x. rewrite Ej. cbn. intro H. inversion H; subst jx. cbn. congruence.
   - apply A.
 Qed.
 
@@ -1218,7 +1239,7 @@ Proof.
   assert (I1 : Inv s1 [] []).
   { unfold s1. destruct expired eqn:EX; [|exact I]. eapply inv_del_done; eauto.
     unfold is_done. rewrite Ej. destruct (j_done j) eqn:Dj; [reflexivity|].
-    unfold expired in EX. rewrite (proj2 (A _ _ Ej) Dj) in EX. discriminate. }
+    unfold expired in EX. rewrite (A _ _ Ej Dj) in EX. discriminate. }
   destruct (j_done j && negb (dl_truthy (j_dl j))) eqn:EC; [|apply IH; assumption].
   apply andb_true_iff in EC. destruct EC as [Dj _]. rewrite J1. apply IH.
   - intros x jx. sf. intro E. apply (aux_set_dl s ser j (Some (s_now s + j_ttl j)) A Ej Dj x jx). sf. exact E.
@@ -1234,8 +1255,7 @@ Proof.
   destruct (j_done j) eqn:D; [exact A|]. intros y jy. sf.
   rewrite getjob_setjob by (intros; cbn; eapply getjob_serial; eauto).
   destruct (y =? x) eqn:Eyx.
-  - apply N.eqb_eq in Eyx. subst y. rewrite E. cbn. intro H. inversion H; subst jy. cbn.
-    split; [exact (proj1 (A _ _ E))|discriminate].
+  - apply N.eqb_eq in Eyx. subst y. rewrite E. cbn. intro H. inversion H; subst jy. cbn. discriminate.
   - apply A.
 Qed.
 
@@ -1252,13 +1272,37 @@ Proof.
   destruct (s_now s <? fst x); [exact A|]. apply IH. apply aux_mark; [reflexivity|exact A].
 Qed.
 
-Lemma step_aux : forall s o, nodrop_op o = true -> Aux s -> Inv s [] [] -> Aux (fst (step s o)).
+Lemma set_drop_tab_le : forall js ser, tab_le js (setjob ser set_drop js).
 Proof.
-  intros s o ND A I.
-  destruct o as [ch prio name tmo|c chs| |c i res e|c js|dt|c|k|c i|i|i v| |dt|js|]; cbn [step]; try discriminate ND.
-  - assert (F : forall j0, j_drop j0 = false -> j_dl j0 = None ->
+  intros js ser y. rewrite getjob_setjob by (intros; cbn; assumption).
+  destruct (y =? ser) eqn:E.
+  - apply N.eqb_eq in E. subst y. destruct (getjob js ser); cbn; auto.
+  - destruct (getjob js y); auto.
+Qed.
+
+Lemma aux_tab_le_dl : forall s s', Aux s ->
+  (forall x j', getjob (s_jobs s') x = Some j' -> exists j, getjob (s_jobs s) x = Some j /\ j_done j = j_done j' /\ j_dl j = j_dl j') ->
+  Aux s'.
+Proof. intros s s' A H x j' E D. destruct (H x j' E) as (j&Ej&Hd&Hl). rewrite <- Hl. apply (A x j Ej). congruence. Qed.
+
+Lemma aux_dropjobs : forall js s, Aux s -> Aux (dropjobs js s).
+Proof.
+  induction js as [|i r IH]; intros s A; cbn [dropjobs]; [exact A|].
+  destruct (id_lookup (s_ids s) i) as [ser|]; [|apply IH; exact A]. apply IH.
+  eapply aux_tab_le_dl; [exact A|]. intros x j'. sf. rewrite getjob_setjob by (intros; cbn; assumption).
+  destruct (x =? ser) eqn:E.
+  - apply N.eqb_eq in E. subst x. destruct (getjob (s_jobs s) ser) as [j|]; cbn; [|discriminate].
+    intro H. inversion H; subst j'. exists j. cbn. auto.
+  - intro H. exists j'. auto.
+Qed.
+
+Lemma step_aux : forall s o, Aux s -> Inv s [] [] -> Aux (fst (step s o)).
+Proof.
+  intros s o A I.
+  destruct o as [ch prio name tmo|c chs| |c i res e|c js|dt|c|k|c i|i|i v| |dt|js|]; cbn [step].
+  - assert (F : forall j0, j_dl j0 = None ->
                 Aux (pushjob (s_count s + 1) (set_jobs (j0 :: s_jobs s) (set_count (s_count s + 1) s)))).
-    { intros j0 H1 H2. eapply aux_same; [apply pushjob_jobs|]. intros x jx. sf. cbn [getjob].
+    { intros j0 H2. eapply aux_same; [apply pushjob_jobs|]. intros x jx. sf. cbn [getjob].
       destruct (j_serial j0 =? x); [intro H; injection H as H0; rewrite <- H0; auto|apply A]. }
     unfold push. destruct name as [n|]; [|apply F; reflexivity].
     destruct (id_lookup (s_ids s) (JName n)) as [ser|]; [|apply F; reflexivity].
@@ -1274,7 +1318,7 @@ Proof.
   - exact A.
   - destruct (is_idle c s); [|exact A]. destruct (id_lookup (s_ids s) i) as [ser|]; [|exact A].
     destruct (getjob (s_jobs s) ser) as [j|]; [|exact A].
-    destruct (j_done j && negb (done_pending ser (s_hub s))); [destruct (j_drop j)|]; exact A.
+    destruct (j_done j && negb (done_pending ser (s_hub s))); [destruct (j_drop j && id_is (s_ids s) (j_id j) ser)|]; exact A.
   - exact A.
   - destruct (id_lookup (s_ids s) i) as [ser|]; [|exact A]. cbn [fst]. intros x jx. sf.
     rewrite getjob_setjob by (intros; cbn; assumption). destruct (x =? ser) eqn:E.
@@ -1283,19 +1327,193 @@ Proof.
     + apply A.
   - exact A.
   - exact A.
+  - cbn [fst]. apply aux_dropjobs. exact A.
   - cbn [fst]. unfold dropdead. apply dropdead_loop_good; assumption.
 Qed.
 
-Lemma step_inv : forall s o, nodrop_op o = true -> Aux s -> Inv s [] [] -> Inv (fst (step s o)) [] [].
+(* ---- the hub invariant HubOK *)
+
+(* a state transformer that neither touches the job table nor queues / consumes a finish notification *)
+Definition nnd (s s' : state) : Prop :=
+  s_jobs s' = s_jobs s /\ forall ser, In (EvDone ser) (s_hub s') <-> In (EvDone ser) (s_hub s).
+
+Lemma nnd_refl : forall s, nnd s s.
+Proof. intro s. split; [reflexivity|intro; tauto]. Qed.
+
+Lemma nnd_trans : forall a b c, nnd a b -> nnd b c -> nnd a c.
+Proof. intros a b c [J1 H1] [J2 H2]. split; [congruence|]. intro ser. rewrite H2. apply H1. Qed.
+
+Lemma nnd_same : forall s s', s_jobs s' = s_jobs s -> s_hub s' = s_hub s -> nnd s s'.
+Proof. intros s s' J H. split; [exact J|]. intro ser. rewrite H. tauto. Qed.
+
+Lemma in_done_snoc : forall ser es e, (forall x, e <> EvDone x) -> (In (EvDone ser) (es ++ [e]) <-> In (EvDone ser) es).
 Proof.
-  intros s o ND A I.
-  destruct o as [ch prio name tmo|c chs| |c i res e|c js|dt|c|k|c i|i|i v| |dt|js|]; cbn [step]; try discriminate ND.
+  intros ser es e He. split; intro H.
+  - apply in_app_or in H. destruct H as [H|[H|[]]]; [exact H|]. exfalso. eapply He; eauto.
+  - apply in_or_app. left; exact H.
+Qed.
+
+Lemma pushjob_nnd : forall x s, nnd s (pushjob x s).
+Proof.
+  intros x s. unfold pushjob. destruct (getjob (s_jobs s) x) as [j|]; [|apply nnd_refl]. cbv zeta. sf.
+  destruct (filter (watches (j_chan j)) (s_waiters s)); sf; [apply nnd_same; reflexivity|].
+  split; [reflexivity|]. intro ser. sf. apply in_done_snoc. intros y H; discriminate H.
+Qed.
+
+Lemma deliver_nnd : forall c chs x s, nnd s (fst (deliver c chs x s)).
+Proof. intros. unfold deliver. destruct (getjob (s_jobs s) x); cbn [fst]; apply nnd_same; reflexivity. Qed.
+
+Lemma pop_nnd : forall c chs s, nnd s (fst (pop_or_block c chs s)).
+Proof.
+  intros. unfold pop_or_block. cbv zeta. destruct (heads _ _) as [x|]; [|apply nnd_same; reflexivity].
+  destruct (getjob _ _); [|apply nnd_same; reflexivity].
+  eapply nnd_trans; [|apply deliver_nnd]. apply nnd_same; reflexivity.
+Qed.
+
+Lemma shutdown_nnd : forall l s, nnd s (shutdown_loop l s).
+Proof.
+  induction l as [|[i w] r IH]; intro s; cbn [shutdown_loop]; [apply nnd_refl|].
+  destruct (is_done (s_jobs s) w); [apply IH|].
+  eapply nnd_trans; [|apply IH]. eapply nnd_trans; [|apply pushjob_nnd]. apply nnd_same; reflexivity.
+Qed.
+
+Lemma die_nnd : forall c s, nnd s (fst (die c s)).
+Proof. intros. unfold die. cbv zeta. cbn [fst]. eapply nnd_trans; [|apply shutdown_nnd]. apply nnd_same; reflexivity. Qed.
+
+Lemma run_event_nnd : forall e s, nnd s (fst (run_event e s)).
+Proof.
+  intros e s. destruct e as [c|c|ser]; cbn [run_event].
+  - destruct (c_st (get_conn (s_conns s) c)) as [|chs [x|]|w|]; try apply nnd_refl.
+    destruct (is_done (s_jobs s) x); [apply pop_nnd|apply deliver_nnd].
+  - destruct (c_st (get_conn (s_conns s) c)) as [|chs mb|w|]; try apply nnd_refl; try apply die_nnd.
+    eapply nnd_trans; [|apply die_nnd]. destruct mb as [x|]; [|apply nnd_same; reflexivity].
+    sf. destruct (is_done (s_jobs s) x); [apply nnd_same; reflexivity|].
+    eapply nnd_trans; [|apply pushjob_nnd]. apply nnd_same; reflexivity.
+  - destruct (release ser (s_jobs s) (s_conns s)). destruct (getjob (s_jobs s) ser) as [j|]; [|apply nnd_same; reflexivity].
+    destruct (j_drop j && has_waiter ser (s_conns s) && id_is (s_ids s) (j_id j) ser); apply nnd_same; reflexivity.
+Qed.
+
+Lemma run_events_nnd : forall es s, nnd s (fst (run_events es s)).
+Proof.
+  induction es as [|e r IH]; intro s; cbn [run_events]; [apply nnd_refl|].
+  pose proof (run_event_nnd e s) as H1. destruct (run_event e s) as [s1 o1]. cbn [fst] in H1.
+  specialize (IH s1). destruct (run_events r s1) as [s2 o2]. cbn [fst] in *. eapply nnd_trans; eauto.
+Qed.
+
+Lemma hub_nnd : forall s s', nnd s s' -> HubOK s -> HubOK s'.
+Proof. intros s s' [J H] K ser Hin. unfold HubOK, hub_ok in *. rewrite J. apply K. apply H. exact Hin. Qed.
+
+Lemma hub_tab_le : forall s s', tab_le (s_jobs s) (s_jobs s') -> s_hub s' = s_hub s -> HubOK s -> HubOK s'.
+Proof. intros s s' T H K ser Hin. rewrite H in Hin. eapply tab_le_really_done; [exact T|]. apply K. exact Hin. Qed.
+
+Lemma mark_hub_cases : forall x u s,
+  s_hub (mark_finished x u s) = s_hub s \/
+  (s_hub (mark_finished x u s) = s_hub s ++ [EvDone x] /\ really_done (s_jobs (mark_finished x u s)) x).
+Proof.
+  intros x u s. unfold mark_finished. destruct (getjob (s_jobs s) x) as [j|] eqn:E; [|left; reflexivity].
+  destruct (j_done j) eqn:D; [left; reflexivity|]. sf.
+  destruct (has_waiter x (s_conns s)); [right|left; reflexivity]. split; [reflexivity|].
+  unfold really_done. rewrite getjob_setjob by (intros; cbn; eapply getjob_serial; eauto).
+  rewrite N.eqb_refl, E. cbn. eexists; split; [reflexivity|reflexivity].
+Qed.
+
+Lemma mark_hub : forall x u s, HubOK s -> HubOK (mark_finished x u s).
+Proof.
+  intros x u s K ser Hin. destruct (mark_hub_cases x u s) as [H|[H R]]; rewrite H in Hin.
+  - eapply tab_le_really_done; [apply mark_tab_le|]. apply K. exact Hin.
+  - apply in_app_or in Hin. destruct Hin as [Hin|[Hin|[]]].
+    + eapply tab_le_really_done; [apply mark_tab_le|]. apply K. exact Hin.
+    + inversion Hin; subst ser. exact R.
+Qed.
+
+Lemma hub_same : forall s s', s_jobs s' = s_jobs s -> s_hub s' = s_hub s -> HubOK s -> HubOK s'.
+Proof. intros s s' J H. apply hub_nnd. apply nnd_same; assumption. Qed.
+
+Lemma killjobs_hub : forall js s, HubOK s -> HubOK (killjobs js s).
+Proof.
+  induction js as [|i r IH]; intros s K; cbn [killjobs]; [exact K|].
+  destruct (id_lookup (s_ids s) i); apply IH; [apply mark_hub|]; exact K.
+Qed.
+
+Lemma timeouts_hub : forall q s, HubOK s -> HubOK (timeouts_loop q s).
+Proof.
+  induction q as [|x r IH]; intros s K; cbn [timeouts_loop]; [eapply hub_same; [| |exact K]; reflexivity|].
+  destruct (is_done (s_jobs s) (snd (snd x))); [apply IH; exact K|].
+  destruct (s_now s <? fst x); [eapply hub_same; [| |exact K]; reflexivity|]. apply IH. apply mark_hub. exact K.
+Qed.
+
+Lemma dropjobs_tab_le : forall js s, tab_le (s_jobs s) (s_jobs (dropjobs js s)) /\ s_hub (dropjobs js s) = s_hub s.
+Proof.
+  induction js as [|i r IH]; intro s; cbn [dropjobs]; [split; [apply tab_le_refl|reflexivity]|].
+  destruct (id_lookup (s_ids s) i) as [ser|]; [|apply IH].
+  destruct (IH (set_jobs (setjob ser set_drop (s_jobs s)) s)) as [T H]. sf. split; [|exact H].
+  eapply tab_le_trans; [apply set_drop_tab_le|exact T].
+Qed.
+
+Lemma dropdead_tab_le : forall l s, tab_le (s_jobs s) (s_jobs (dropdead_loop l s)) /\ s_hub (dropdead_loop l s) = s_hub s.
+Proof.
+  induction l as [|i r IH]; intro s; cbn [dropdead_loop]; [split; [apply tab_le_refl|reflexivity]|].
+  destruct (id_lookup (s_ids s) i) as [ser|]; [|apply IH].
+  destruct (getjob (s_jobs s) ser) as [j|]; [|apply IH]. cbv zeta.
+  match goal with |- context [dropdead_loop r ?t] => destruct (IH t) as [T H]; assert (T0 : tab_le (s_jobs s) (s_jobs t) /\ s_hub t = s_hub s) end.
+  { destruct (match j_dl j with Some d => negb (d =? 0) && (d <? s_now s) | None => false end);
+      destruct (j_done j && negb (dl_truthy (j_dl j))); sf; split; try reflexivity; try apply tab_le_refl; apply set_dl_tab_le. }
+  destruct T0 as [T0 H0]. split; [eapply tab_le_trans; eauto|congruence].
+Qed.
+
+Lemma step_hub : forall s o, Inv s [] [] -> HubOK s -> HubOK (fst (step s o)).
+Proof.
+  intros s o I K.
+  destruct o as [ch prio name tmo|c chs| |c i res e|c js|dt|c|k|c i|i|i v| |dt|js|]; cbn [step].
+  - assert (F : forall j0, j_serial j0 = s_count s + 1 ->
+                HubOK (pushjob (s_count s + 1) (set_jobs (j0 :: s_jobs s) (set_count (s_count s + 1) s)))).
+    { intros j0 Hs. eapply hub_nnd; [apply pushjob_nnd|]. intros ser Hin. sf.
+      destruct (K ser Hin) as (j&E&D). exists j. split; [|exact D]. cbn [getjob]. rewrite Hs.
+      pose proof (inv_tab _ _ _ I _ _ E). destruct (s_count s + 1 =? ser) eqn:Ex; [apply N.eqb_eq in Ex; lia|exact E]. }
+    unfold push. destruct name as [n|]; [|apply F; reflexivity].
+    destruct (id_lookup (s_ids s) (JName n)) as [ser|]; [|apply F; reflexivity].
+    destruct (getjob (s_jobs s) ser) as [j0|]; [|apply F; reflexivity].
+    destruct (err_is_killed (j_err j0)); [apply F; reflexivity|exact K].
+  - destruct (is_idle c s); [|exact K]. eapply hub_nnd; [apply pop_nnd|exact K].
+  - eapply hub_nnd; [apply run_events_nnd|]. intros ser []. 
+  - destruct (is_idle c s); [|exact K]. destruct (id_lookup (s_ids s) i); [|exact K]. cbn [fst].
+    eapply hub_same; [| |apply mark_hub; exact K]; reflexivity.
+  - destruct (is_idle c s); [|exact K]. cbn [fst]. eapply hub_same; [| |apply killjobs_hub; exact K]; reflexivity.
+  - cbn [fst]. unfold handletimeouts. eapply hub_same; [| |apply (timeouts_hub (s_tq s) (set_now (s_now s + dt) s))]; try reflexivity.
+    eapply hub_same; [| |exact K]; reflexivity.
+  - destruct (c_st (get_conn (s_conns s) c)); cbn [fst]; try exact K;
+      (eapply hub_nnd; [|exact K]; split; [reflexivity|]; intro ser0; sf; apply in_done_snoc; intros y H; discriminate H).
+  - cbn [fst]. eapply hub_same; [| |exact K]; reflexivity.
+  - destruct (is_idle c s); [|exact K]. destruct (id_lookup (s_ids s) i) as [ser|]; [|exact K].
+    destruct (getjob (s_jobs s) ser) as [j|]; [|exact K].
+    destruct (j_done j && negb (done_pending ser (s_hub s))); [destruct (j_drop j && id_is (s_ids s) (j_id j) ser)|]; cbn [fst];
+      try exact K; (eapply hub_same; [| |exact K]; reflexivity).
+  - exact K.
+  - destruct (id_lookup (s_ids s) i) as [ser|]; [|exact K]. cbn [fst].
+    eapply hub_tab_le; [| |exact K]; [sf; apply setinfo_tab_le|reflexivity].
+  - exact K.
+  - cbn [fst]. eapply hub_same; [| |exact K]; reflexivity.
+  - cbn [fst]. destruct (dropjobs_tab_le js s) as [T H]. eapply hub_tab_le; eauto.
+  - cbn [fst]. unfold dropdead. destruct (dropdead_tab_le (map fst (s_ids s)) s) as [T H]. eapply hub_tab_le; eauto.
+Qed.
+
+Lemma dropjobs_inv : forall js s L R, Inv s L R -> Inv (dropjobs js s) L R.
+Proof.
+  induction js as [|i r IH]; intros s L R I; cbn [dropjobs]; [exact I|].
+  destruct (id_lookup (s_ids s) i) as [ser|]; [|apply IH; exact I]. apply IH.
+  eapply inv_tab_le; [exact I| |reflexivity|reflexivity|reflexivity|reflexivity|reflexivity]. sf. apply set_drop_tab_le.
+Qed.
+
+Lemma step_inv : forall s o, Aux s -> HubOK s -> Inv s [] [] -> Inv (fst (step s o)) [] [].
+Proof.
+  intros s o A K I.
+  destruct o as [ch prio name tmo|c chs| |c i res e|c js|dt|c|k|c i|i|i v| |dt|js|]; cbn [step].
   - pose proof (push_inv ch prio name tmo s I) as H. destruct (push ch prio name tmo s) as [s1 i]. exact H.
   - destruct (is_idle c s) eqn:EI; [|exact I]. apply is_idle_st in EI.
     apply pop_or_block_inv; auto.
     + intros y n W. rewrite EI. reflexivity.
     + intros chs' H. rewrite EI in H. discriminate.
-  - apply run_events_inv; [exact A|]. eapply inv_same; eauto.
+  - apply run_events_inv; [eapply inv_same; eauto|exact K].
   - destruct (is_idle c s) eqn:EI; [|exact I]. apply is_idle_st in EI.
     destruct (id_lookup (s_ids s) i) as [ser|] eqn:El; [|exact I]. cbn [fst].
     set (u := fun j => upd_finish res e (if err_truthy e then N_min 10 (j_ttl j) else j_ttl j) j).
@@ -1315,19 +1533,29 @@ Proof.
   - destruct (is_idle c s) eqn:EI; [|exact I]. apply is_idle_st in EI.
     destruct (id_lookup (s_ids s) i) as [ser|]; [|exact I].
     destruct (getjob (s_jobs s) ser) as [j|] eqn:Ej; [|exact I].
-    destruct (j_done j && negb (done_pending ser (s_hub s))); [rewrite (proj1 (A _ _ Ej)); exact I|]. cbn [fst].
-    apply conn_update_inv; auto; [right; eexists; reflexivity|apply incl_refl].
+    destruct (j_done j && negb (done_pending ser (s_hub s))) eqn:ED.
+    + (* released at once; a dropped job's id is forgotten only while it still names this finished job *)
+      destruct (j_drop j && id_is (s_ids s) (j_id j) ser) eqn:EC; [|exact I]. cbn [fst].
+      apply andb_true_iff in EC. destruct EC as [_ EI2]. apply id_is_spec in EI2.
+      apply andb_true_iff in ED. destruct ED as [Dj _].
+      eapply inv_del_done; eauto. unfold is_done. rewrite Ej. exact Dj.
+    + cbn [fst]. apply conn_update_inv; auto; [right; eexists; reflexivity|apply incl_refl].
   - exact I.
   - destruct (id_lookup (s_ids s) i) as [ser|]; [|exact I]. cbn [fst].
     eapply inv_tab_le; eauto. sf. apply setinfo_tab_le.
   - exact I.
   - cbn [fst]. eapply inv_same; eauto.
+  - cbn [fst]. apply dropjobs_inv. exact I.
   - cbn [fst]. unfold dropdead. apply dropdead_loop_good; assumption.
 Qed.
 
-Lemma step_good : forall s o, nodrop_op o = true -> Aux s /\ Inv s [] [] ->
-  Aux (fst (step s o)) /\ Inv (fst (step s o)) [] [].
-Proof. intros s o ND [A I]. split; [apply step_aux|apply step_inv]; assumption. Qed.
+(* the three invariants together *)
+Definition Good (s : state) : Prop := Aux s /\ HubOK s /\ Inv s [] [].
+
+Lemma step_good : forall s o, Good s -> Good (fst (step s o)).
+Proof.
+  intros s o (A&K&I). split; [apply step_aux; assumption|]. split; [apply step_hub; assumption|apply step_inv; assumption].
+Qed.
 
 Lemma inv_init : Inv init [] [].
 Proof.
@@ -1339,23 +1567,30 @@ Qed.
 Lemma aux_init : Aux init.
 Proof. intros x j H. discriminate H. Qed.
 
-(* histories without Drop (every history over the alphabets of C16/C17/C18, plus Advance and Watchdog) *)
-Lemma run_good : forall h s, nodrop h = true -> Aux s -> Inv s [] [] -> Aux (run h s) /\ Inv (run h s) [] [].
-Proof.
-  induction h as [|o h IH]; intros s ND A I; [split; assumption|].
-  cbn [nodrop forallb] in ND. apply andb_true_iff in ND. destruct ND as [N1 N2].
-  change (run (o :: h) s) with (run h (fst (step s o))).
-  apply IH; [exact N2|apply step_aux; assumption|apply step_inv; assumption].
-Qed.
+Lemma hub_init : HubOK init.
+Proof. intros ser []. Qed.
 
-Lemma run_inv : forall h s, nodrop h = true -> Aux s -> Inv s [] [] -> Inv (run h s) [] [].
-Proof. intros h s ND A I. apply (run_good h s ND A I). Qed.
+Lemma good_init : Good init.
+Proof. split; [apply aux_init|]. split; [apply hub_init|apply inv_init]. Qed.
 
-Lemma reachable_inv : forall h, nodrop h = true -> Inv (run h init) [] [].
-Proof. intros h ND. apply run_inv; [exact ND|apply aux_init|apply inv_init]. Qed.
+(* EVERY history: Drop (rpc_qdrop), Watchdog and Advance included *)
+Lemma run_good : forall h s, Good s -> Good (run h s).
+Proof. intro h. apply (invariant_reachable Good). intros s o. apply step_good. Qed.
 
-Lemma reachable_aux : forall h, nodrop h = true -> Aux (run h init).
-Proof. intros h ND. apply (run_good h init ND aux_init inv_init). Qed.
+Lemma run_inv : forall h s, Good s -> Inv (run h s) [] [].
+Proof. intros h s G. apply (run_good h s G). Qed.
+
+Lemma reachable_good : forall h, Good (run h init).
+Proof. intro h. apply run_good. apply good_init. Qed.
+
+Lemma reachable_inv : forall h, Inv (run h init) [] [].
+Proof. intro h. apply (reachable_good h). Qed.
+
+Lemma reachable_aux : forall h, Aux (run h init).
+Proof. intro h. apply (reachable_good h). Qed.
+
+Lemma reachable_hub : forall h, HubOK (run h init).
+Proof. intro h. apply (reachable_good h). Qed.
 
 (* ------------------------------------------------------------------ C16 statements *)
 
@@ -1363,14 +1598,14 @@ Proof. intros h ND. apply (run_good h init ND aux_init inv_init). Qed.
 Definition in_queues (s : state) (x : N) : nat := occ_qs x (s_queues s).
 Definition with_workers (s : state) (x : N) : nat := occ_conns x (s_conns s).
 
-Lemma conservation : forall h x j, nodrop h = true ->
+Lemma conservation : forall h x j,
   let s := run h init in
   getjob (s_jobs s) x = Some j -> j_done j = false ->
   (in_queues s x + with_workers s x = 1)%nat /\
   id_lookup (s_ids s) (j_id j) = Some x /\
   (forall k q p, In (k, q) (s_queues s) -> In (p, x) q -> k = j_chan j /\ p = j_prio j).
 Proof.
-  intros h x j ND s E D. pose proof (reachable_inv h ND) as I. fold s in I.
+  intros h x j s E D. pose proof (reachable_inv h) as I. fold s in I.
   split; [|split].
   - pose proof (inv_cons _ _ _ I x 1%nat (want_undone _ _ _ E D)) as H. unfold locs in H. cbn [occ] in H.
     unfold in_queues, with_workers. lia.
@@ -1380,25 +1615,25 @@ Qed.
 
 (* nothing but accepted jobs is ever queued or handed out, a registered waiter has an empty
    mailbox (so a hand-off never overwrites a job), and no connection is registered twice *)
-Lemma no_phantoms : forall h x, nodrop h = true ->
+Lemma no_phantoms : forall h x,
   let s := run h init in
   getjob (s_jobs s) x = None -> (in_queues s x + with_workers s x = 0)%nat.
 Proof.
-  intros h x ND s E. pose proof (reachable_inv h ND) as I. fold s in I.
+  intros h x s E. pose proof (reachable_inv h) as I. fold s in I.
   pose proof (inv_cons _ _ _ I x 0%nat) as H. unfold want in H. rewrite E in H. specialize (H eq_refl).
   unfold locs in H. cbn [occ] in H. unfold in_queues, with_workers. lia.
 Qed.
 
-Lemma waiters_empty_mailbox : forall h c chs, nodrop h = true ->
+Lemma waiters_empty_mailbox : forall h c chs,
   let s := run h init in
   In (c, chs) (s_waiters s) -> c_st (get_conn (s_conns s) c) = BPull chs None.
-Proof. intros h c chs ND s. apply (inv_wait _ _ _ (reachable_inv h ND)). Qed.
+Proof. intros h c chs s. apply (inv_wait _ _ _ (reachable_inv h)). Qed.
 
-Lemma mailbox_eligible : forall h c chs x, nodrop h = true ->
+Lemma mailbox_eligible : forall h c chs x,
   let s := run h init in
   c_st (get_conn (s_conns s) c) = BPull chs (Some x) ->
   exists j, getjob (s_jobs s) x = Some j /\ eligible (j_chan j) chs.
-Proof. intros h c chs x ND s. apply (inv_mb _ _ _ (reachable_inv h ND)). Qed.
+Proof. intros h c chs x s. apply (inv_mb _ _ _ (reachable_inv h)). Qed.
 
 Definition example_history : list op :=
   [StartPull 1 [0]; StartPull 2 []; Add 0 1 None None; Add 0 0 (Some 0) None; Choice 1; Add 1 0 None (Some 5);
